@@ -6,7 +6,7 @@
 EXTENDS CTypes
 
 CONSTANTS Depth,        \* constructors above a base type
-          Profile       \* "small" | "mid" | "full": which base types / lengths / parameter lists
+          Profile       \* "tiny" | "small" | "mid" | "full" | "big" | "bigall": base types / lengths / parameter lists
 (* Variant (declared in CTypes): "suffix-order" makes Read apply suffixes left to right,
    "no-group" makes ParseC never take parentheses as grouping, "old-qual-loop" makes ParseC skip
    qualifiers only before the first specifier keyword (parse_complete before /repo 795689f) *)
@@ -487,17 +487,27 @@ ParenIdent(s) == \E i \in 1..Len(s) : /\ s[i] = "(" /\ IsDeclIdent(At(s, i + 1))
 
 -----------------------------------------------------------------------------
 (* the bounded universe of terms *)
-BasePrims == IF Profile = "small"
+(* Profiles "big" / "bigall": array lengths at the boundaries of their decimal text (1, 2, 3, 9, 10 digits,
+   2^31 - 1 = the largest TLC integer) over char, short, pointers and function pointers.  Larger lengths
+   (2^31 .. sys.maxsize) are replayed with real values and validated under an abstract length code. *)
+BasePrims == IF Profile \in {"big", "bigall"} THEN {"char", "short"}
+             ELSE IF Profile \in {"small", "tiny"}
              THEN {"int", "unsigned char"}
              ELSE {"char", "short", "int", "long", "long long", "signed char", "unsigned char",
                    "unsigned short", "unsigned int", "unsigned long", "unsigned long long",
                    "float", "double", "long double", "_Bool", "size_t", "uint8_t", "wchar_t"}
-BaseAggs == IF Profile = "small" THEN {Agg("struct", "s1")}
+BaseAggs == IF Profile \in {"big", "bigall"} THEN {}
+            ELSE IF Profile \in {"small", "tiny"} THEN {Agg("struct", "s1")}
             ELSE {Agg("struct", "s1"), Agg("struct", "s2"), Agg("struct", "op"), Agg("union", "u1"),
                   Agg("enum", "e1")}
 Base == {P(n) : n \in BasePrims} \cup {Void} \cup BaseAggs
-Lens == IF Profile \in {"small", "mid"} THEN {Open, 16} ELSE {Open, 3, 16, 2}
-ArgLists == IF Profile \in {"small", "mid"}
+Lens == IF Profile = "big" THEN {10, 999999999, 1000000000, 2147483647}
+        ELSE IF Profile = "bigall" THEN {9, 10, 99, 100, 999999999, 1000000000, 1234567890, 2147483647}
+        ELSE IF Profile \in {"small", "mid", "tiny"} THEN {Open, 16} ELSE {Open, 3, 16, 2}
+ArgLists == IF Profile \in {"big", "bigall"} THEN {<< <<P("int")>>, FALSE >>}
+            ELSE IF Profile = "tiny"           \* the small profile with half the parameter lists (C08 quick tier)
+            THEN {<< << >>, FALSE >>, << <<P("int")>>, TRUE >>, << <<Ptr(P("char")), Agg("struct", "s1")>>, FALSE >>}
+            ELSE IF Profile \in {"small", "mid"}
             THEN {<< << >>, FALSE >>, << <<P("int")>>, FALSE >>, << <<P("int")>>, TRUE >>,
                   << <<Ptr(P("char")), Agg("struct", "s1")>>, FALSE >>,
                   << <<Ptr(P("int")), Ptr(Arr(P("int"), 5))>>, TRUE >>,          \* Param(vec_t), Param(mat_t)
